@@ -106,6 +106,9 @@ func genVariant(t *rapid.T, label string, allowMulti bool) Variant {
 		}
 		if !l.Hard && l.Style == "root" {
 			l.Chain = rapid.IntRange(0, 3).Draw(t, label+"_lchain") == 0
+			if l.Chain {
+				l.Hops = rapid.IntRange(0, 2).Draw(t, label+"_lhops")
+			}
 		}
 		v.Links = append(v.Links, l)
 	}
@@ -435,6 +438,110 @@ func check(c Case, ev *evid.Collector) *evid.Violation {
 		return checkDocker(c, ev)
 	}
 	return &evid.Violation{Sig: "harness-unknown-kind", Msg: c.Kind}
+}
+
+// attribution is the outcome of looking for the transformation responsible for
+// a failing variant.
+type attribution struct {
+	culprit      string          // generator feature to strip ("" = none found)
+	label        string          // name used in the signature (link-depth3 is derived from the archive)
+	needed       bool            // the transformation does not fail alone; removing it repairs the variant
+	v            *evid.Violation // failure of the deciding run
+	graph        *evid.Violation // set instead when a graph / target level cause was diagnosed
+	inconclusive bool
+}
+
+func (a attribution) sig() string {
+	if a.needed && a.label != fLinkDirRel && a.label != "link-depth3" {
+		return "variant-combination-with-" + a.label + "-" + a.v.Sig
+	}
+	return variantSig(a.label, a.v.Sig)
+}
+
+func (a attribution) describe() string {
+	if a.needed {
+		return fmt.Sprintf("transformation %q (which does not fail alone, but whose removal repairs the variant)", a.label)
+	}
+	return fmt.Sprintf("transformation %q", a.label)
+}
+
+// attribute re-runs a failing variant with single transformations (phase 1:
+// one that fails alone) and with single transformations removed (phase 2: one
+// whose removal repairs it; links first).
+func attribute(cur Variant, o outcome, names []string, base []tarEntry, try func(Variant, string) outcome, qualify func(outcome) *evid.Violation,
+	diagnose func(func() outcome, outcome) (*evid.Violation, bool), label string) attribution {
+	fs := cur.features(names)
+	var a attribution
+	depthLabel := func(v Variant, f string) string {
+		if strings.HasPrefix(f, "link-") {
+			if es, err := v.apply(base); err == nil && linkDepth(es) >= 3 {
+				return "link-depth3"
+			}
+		}
+		return f
+	}
+	if len(fs) == 1 {
+		a.culprit, a.v, a.label = fs[0], qualify(o), depthLabel(cur, fs[0])
+		return a
+	}
+	for _, f := range fs {
+		only := cur.restrict(f, true, names)
+		o2 := try(only, label+" only "+f)
+		if o2.inconclusive {
+			a.inconclusive = true
+			return a
+		}
+		if o2.v == nil {
+			continue
+		}
+		if diagnose != nil {
+			// a graph / target level cause that this transformation merely exposes?
+			if dv, ok := diagnose(func() outcome { return try(only, label+" only "+f) }, o2); ok {
+				dv.Msg = label + " only " + f + ": " + dv.Msg
+				a.graph = dv
+				return a
+			}
+		}
+		a.culprit, a.v, a.label = f, qualify(o2), depthLabel(only, f)
+		return a
+	}
+	var order []string
+	for _, f := range fs {
+		if strings.HasPrefix(f, "link-") {
+			order = append(order, f)
+		}
+	}
+	for _, f := range fs {
+		if !strings.HasPrefix(f, "link-") {
+			order = append(order, f)
+		}
+	}
+	for _, f := range order {
+		o2 := try(cur.restrict(f, false, names), label+" without "+f)
+		if o2.inconclusive {
+			a.inconclusive = true
+			return a
+		}
+		if o2.v == nil {
+			a.culprit, a.v, a.label, a.needed = f, qualify(o), depthLabel(cur, f), true
+			return a
+		}
+	}
+	return a
+}
+
+// variantSig names the failure of a variant attributed to one transformation.
+// The two link-resolution defects show as an import error or (when index.json /
+// the manifest is behind the link and the Docker fall-back takes over) as a
+// different digest at the target: one signature per root cause.
+func variantSig(label, kind string) string {
+	switch label {
+	case fLinkDirRel:
+		return "variant-link-dirrel-import-error"
+	case "link-depth3":
+		return "variant-link-depth3-not-followed"
+	}
+	return "variant-" + label + "-" + kind
 }
 
 func variantKey(vs []Variant, names []string) string {
@@ -817,52 +924,32 @@ func checkRoundTrip(c Case, ev *evid.Collector) *evid.Violation {
 				dv.Msg = label + ": " + dv.Msg
 				return dv
 			}
-			fs := cur.features(names)
-			culprit := ""
-			var cv, gv *evid.Violation
-			if len(fs) == 1 {
-				culprit, cv = fs[0], o.v
-			} else {
-				for _, f := range fs {
-					only := cur.restrict(f, true, names)
-					o2 := try(only, label+" only "+f)
-					if o2.inconclusive {
-						finish("watchdog", false)
-						return nil
-					}
-					if o2.v != nil {
-						// a graph / target level cause that this transformation merely exposes?
-						if dv, attributed := diagnose(func() outcome { return try(only, label+" only "+f) }, o2); attributed {
-							gv = dv
-							gv.Msg = label + " only " + f + ": " + gv.Msg
-							break
-						}
-						culprit, cv = f, o2.v
-						break
-					}
-				}
+			at := attribute(cur, o, names, entries, try, func(o outcome) *evid.Violation { return o.v }, diagnose, label)
+			if at.inconclusive {
+				finish("watchdog", false)
+				return nil
 			}
-			if gv != nil {
-				if ev.IsKnown(gv.Sig) && round < 8 {
-					ev.Report(gv, c)
-					classes["known:"+gv.Sig] = true
+			if at.graph != nil {
+				if ev.IsKnown(at.graph.Sig) && round < 8 {
+					ev.Report(at.graph, c)
+					classes["known:"+at.graph.Sig] = true
 					continue
 				}
 				finish("variant-failed", true)
-				return gv
+				return at.graph
 			}
-			if culprit == "" {
+			if at.culprit == "" {
 				finish("variant-failed", true)
-				if len(fs) == 0 {
+				if len(cur.features(names)) == 0 {
 					return evid.V("variant-identity-"+o.v.Sig, "re-serialised archive without any transformation: %s", o.v.Msg)
 				}
-				return evid.V("variant-combination-"+o.v.Sig, "variant with transformations %v (none of which fails alone): %s", fs, o.v.Msg)
+				return evid.V("variant-combination-"+o.v.Sig, "variant with transformations %v (none of which fails alone, none of which repairs it when removed): %s", cur.features(names), o.v.Msg)
 			}
-			nv := evid.V("variant-"+culprit+"-"+cv.Sig, "the exported archive imports correctly, its variant with transformation %q does not: %s", culprit, cv.Msg)
+			nv := evid.V(at.sig(), "the exported archive imports correctly, its variant with %s does not: %s", at.describe(), at.v.Msg)
 			if ev.IsKnown(nv.Sig) && round < 8 {
 				ev.Report(nv, c)
 				classes["known:"+nv.Sig] = true
-				cur = cur.restrict(culprit, false, names)
+				cur = cur.restrict(at.culprit, false, names)
 				continue
 			}
 			finish("variant-failed", true)
@@ -979,7 +1066,7 @@ func checkDocker(c Case, ev *evid.Collector) *evid.Violation {
 			v := verifyDocker(ep.view(), tag, b.cfg[pick], b.layers[pick])
 			if v != nil {
 				v.Msg = stage + ": " + v.Msg
-				if dupPath {
+				if dupPath && dc.Style != "oci" {
 					v.Sig = "docker-duplicate-layer-path-" + strings.TrimPrefix(v.Sig, "docker-")
 				}
 				return v
@@ -1001,7 +1088,7 @@ func checkDocker(c Case, ev *evid.Collector) *evid.Violation {
 		v := o.v
 		if o.importErr != nil && !variant {
 			v = evid.V("docker-import-error", "%s (style %s)", v.Msg, dc.Style)
-			if dupPath {
+			if dupPath && dc.Style != "oci" {
 				v.Sig = "docker-duplicate-layer-path-import-error"
 			}
 		}
@@ -1043,32 +1130,20 @@ func checkDocker(c Case, ev *evid.Collector) *evid.Violation {
 			if o.v == nil {
 				break
 			}
-			culprit := ""
-			var cv *evid.Violation
-			if len(fs) == 1 {
-				culprit, cv = fs[0], qualify(o, true)
-			} else {
-				for _, f := range fs {
-					o2 := try(cur.restrict(f, true, names), "docker variant only "+f)
-					if o2.inconclusive {
-						finish("watchdog", false)
-						return nil
-					}
-					if o2.v != nil {
-						culprit, cv = f, qualify(o2, true)
-						break
-					}
-				}
+			at := attribute(cur, o, names, b.entries, try, func(o outcome) *evid.Violation { return qualify(o, true) }, nil, "docker variant")
+			if at.inconclusive {
+				finish("watchdog", false)
+				return nil
 			}
-			if culprit == "" {
+			if at.culprit == "" {
 				finish("variant-failed", true)
-				return evid.V("variant-combination-"+qualify(o, true).Sig, "docker archive variant with transformations %v (none of which fails alone): %s", fs, o.v.Msg)
+				return evid.V("variant-combination-"+qualify(o, true).Sig, "docker archive variant with transformations %v (none of which fails alone, none of which repairs it when removed): %s", fs, o.v.Msg)
 			}
-			nv := evid.V("variant-"+culprit+"-"+cv.Sig, "the Docker-format archive (%s) imports correctly, its variant with transformation %q does not: %s", dc.Style, culprit, cv.Msg)
+			nv := evid.V(at.sig(), "the Docker-format archive (%s) imports correctly, its variant with %s does not: %s", dc.Style, at.describe(), at.v.Msg)
 			if ev.IsKnown(nv.Sig) && round < 8 {
 				ev.Report(nv, c)
 				classes["known:"+nv.Sig] = true
-				cur = cur.restrict(culprit, false, names)
+				cur = cur.restrict(at.culprit, false, names)
 				continue
 			}
 			finish("variant-failed", true)
